@@ -4,10 +4,19 @@
      chunks  the chunking of every operand,   variant  the spelling used
      obs     what was observed: raised, lazy shape / chunks, per-block consistency, the computed
              shape and the assembled content (cells)
+   A decomposition record (op qr / tsqr / sfqr / svd) carries the matrix shape and chunking in c, one
+   observation per factor in f, and the error measures rlow / recon / orth / sv (see Tensor!DecompBad).
    TLC decides each record against the reference semantics of module Tensor.           *)
 EXTENDS Tensor, TraceIO
 
+\* TLC wraps long printed lines: report the first failing clause (in this order) and "More"
+Order == <<"UnexpectedRaise", "FactorShapes", "Meta", "Triangular", "Reconstruction", "Orthonormal", "SingularValues">>
+Trim(b) == IF Cardinality(b) <= 1 THEN b
+           ELSE LET i == CHOOSE i \in DOMAIN Order : Order[i] \in b /\ \A j \in 1..(i - 1) : Order[j] \notin b
+                IN {Order[i], "More"}
+
 Bad(r) ==
+  IF r.c.op \in DecompOps THEN Trim(DecompBad(r)) ELSE
   LET w == Res(r.c) IN
   IF w.err THEN Clause("ErrorExpected", r.obs.raised # "")
   ELSE IF r.obs.raised # "" THEN {"UnexpectedRaise"}
